@@ -43,7 +43,7 @@ var propMeta = map[string]meta{
 		}, commonAssume...),
 	},
 	"C11": {
-		rule:         "one evaluation = one simulated I/O run: seeded list contents from line classes (network/host/cosmetic rules, comments, blank, invalid, leading/trailing blanks, multi-byte UTF-8, invalid UTF-8, NUL, BOM, exotic white space, stray CR at any position, lines whose kind is easy to get wrong, LF/CRLF/mixed endings, no final newline, lines within +-20 bytes of 1x/2x/3x the read buffer, 4097..9000 bytes, rarely > 64 KiB, rarely one line of 1.0-1.2 MiB, consecutive lines equal under Unicode case folding, ids and lines that glue ambiguously (1/"10.0.0.1 h" vs 11/"0.0.0.1 h"), rarely 18-48 thousand lines so that offsets pass 1 MiB), 1-4 lists with distinct ids from a pool of 16 incl. negative, zero, extreme and >16-bit ones, IgnoreCosmetic on/off; the stream the scanner reads is cut by a seeded read-size schedule (1..k bytes per Read, k in 1..8192); every storage configuration (in-memory, file with the default buffer, file with a knob buffer of 1/2/3/7/64/4096 bytes, seeded mix) is scanned twice (after a scan abandoned half-way) and compared with the reference; the index reported with a rule must be the same for every backing and distinct per rule (no particular packing is demanded); every yielded index is retrieved in a seeded permutation three times through the storage and once through the list, and through a second storage over the same list objects; the block reader is run at yielded offsets over short-read readers; engines over all backings are compared on requests derived from the lists. Reference = split on LF + the repository's own rules.NewRule per line. Non-trivial = at least one yielded rule and (a line spanning more than one read block or a chunk boundary inside CRLF/UTF-8 or >1 list). Distinct = distinct hash of (contents, ids, read schedule).",
+		rule:         "one evaluation = one simulated I/O run: seeded list contents from line classes (network/host/cosmetic rules, comments, blank, invalid, leading/trailing blanks, multi-byte UTF-8, invalid UTF-8, NUL, BOM, exotic white space, stray CR at any position, lines whose kind is easy to get wrong, LF/CRLF/mixed endings, no final newline, lines within +-20 bytes of 1x/2x/3x the read buffer, 4097..9000 bytes, rarely > 64 KiB, rarely one line of 1.0-1.2 MiB, consecutive lines equal under Unicode case folding, ids and lines that glue ambiguously (id 1 with '10.0.0.1 h' vs id 11 with '0.0.0.1 h'), rarely 18-48 thousand lines so that offsets pass 1 MiB), 1-4 lists with distinct ids from a pool of 16 incl. negative, zero, extreme and >16-bit ones, IgnoreCosmetic on/off; the stream the scanner reads is cut by a seeded read-size schedule (1..k bytes per Read, k in 1..8192); every storage configuration (in-memory, file with the default buffer, file with a knob buffer of 1/2/3/7/64/4096 bytes, seeded mix) is scanned twice (after a scan abandoned half-way) and compared with the reference; the index reported with a rule must be the same for every backing and distinct per rule (no particular packing is demanded); every yielded index is retrieved in a seeded permutation three times through the storage and once through the list, and through a second storage over the same list objects; the block reader is run at yielded offsets over short-read readers; engines over all backings are compared on requests derived from the lists. Reference = split on LF + the repository's own rules.NewRule per line. Non-trivial = at least one yielded rule and (a line spanning more than one read block or a chunk boundary inside CRLF/UTF-8 or >1 list). Distinct = distinct hash of (contents, ids, read schedule).",
 		stateMeasure: "HyperLogLog estimate over (list content hash, buffer size, chunk-size bound) configurations",
 		real:         commonReal,
 		stub:         []string{"ChunkReader (io.Reader with seeded read sizes) feeds NewRuleScanner and readLine in the read-schedule sub-checks; file-backed sub-checks use real files"},
